@@ -161,6 +161,9 @@ func concreteFrame(seed int64, idx int, f map[string]any) []byte {
 		for i := 4 + l; i < len(b); i++ {
 			b[i] = 0
 		}
+		if f["body"] == "cookie" && l >= 4 { // application data that begins with the STUN magic cookie
+			binary.BigEndian.PutUint32(b[4:8], 0x2112A442)
+		}
 
 		return b
 	default: // junk: neither a STUN cookie nor a channel number
